@@ -279,7 +279,10 @@ fn main() {
                 out.push(json!({"a": ser_axcut::limbs(a), "b": ser_axcut::limbs(b),
                     "add": ser_axcut::limbs(a.wrapping_add(b)), "sub": ser_axcut::limbs(a.wrapping_sub(b)), "mul": ser_axcut::limbs(a.wrapping_mul(b)),
                     "divdef": divdef, "div": ser_axcut::limbs(if divdef { a / b } else { 0 }), "rem": ser_axcut::limbs(if divdef { a % b } else { 0 }),
-                    "lt": a < b, "le": a <= b, "dec": a.to_string(), "low8": (a as u64 & 0xff), "neg": ser_axcut::limbs(a.wrapping_neg())}));
+                    "lt": a < b, "le": a <= b, "dec": a.to_string(), "low8": (a as u64 & 0xff), "neg": ser_axcut::limbs(a.wrapping_neg()),
+                    "and": ser_axcut::limbs(a & b), "or": ser_axcut::limbs(a | b), "xor": ser_axcut::limbs(a ^ b),
+                    "sh": (b as u64 & 63), "shl": ser_axcut::limbs(((a as u64) << (b as u64 & 63)) as i64),
+                    "shr": ser_axcut::limbs(((a as u64) >> (b as u64 & 63)) as i64), "sar": ser_axcut::limbs(a >> (b as u64 & 63))}));
             }
             std::fs::write(&args[4], Value::Array(out).to_string()).unwrap();
         }
